@@ -511,6 +511,9 @@ class Program:
         self.path = path
         if not os.environ.get("VERIF_NO_DESUGAR"):
             import desugar
+            if not os.environ.get("VERIF_NO_RENAME"):
+                import rename
+                self.renamed_fns = rename.canonicalise_renames(d)
             if not os.environ.get("VERIF_NO_INLINE"):
                 import inline
                 self.inlined_helpers = inline.inline_helpers(d)
